@@ -1205,19 +1205,11 @@ where
             &self.options.extension.front_matter_delimiter,
         ) {
             if let Some((front_matter, rest)) = split_off_front_matter(s, delimiter) {
-                let lines = front_matter
-                    .as_bytes()
-                    .iter()
-                    .filter(|b| **b == b'\n')
-                    .count();
+                let lines = strings::count_line_endings(front_matter);
 
                 let mut stripped_front_matter = front_matter.to_string();
                 strings::remove_trailing_blank_lines(&mut stripped_front_matter);
-                let stripped_lines = stripped_front_matter
-                    .as_bytes()
-                    .iter()
-                    .filter(|b| **b == b'\n')
-                    .count();
+                let stripped_lines = strings::count_line_endings(&stripped_front_matter);
 
                 let node = self.add_child(
                     self.root,
